@@ -112,7 +112,7 @@ CHECKS = {
             "For each of the 115 single-register load/store encoding rows (word/byte/half/signed/dual, immediate, literal, "
             "register, unprivileged, exclusive; A1/A2/T1..T4) three sweeps are enumerated completely: the access matrix "
             "(P/U/W x base address incl. near 0 and 2^32 x alignment 0..3 x CPSR.E x SCTLR.A x SCTLR.U x data x mode x arch "
-            "6/7), address arithmetic (immediate alphabet / index shifts x offset values), and register patterns (Rn=SP/PC, "
+            "6/7, the doubleword rows also under an LPAE configuration), address arithmetic (immediate alphabet / index shifts x offset values), and register patterns (Rn=SP/PC, "
             "Rt=PC with interworking targets, Rn==Rt). Address, bytes transferred, extension, write-back, LoadWritePC and "
             "the frame condition are compared through the full snapshot.",
             "Trusted: armmc/ref/rows_ldst.py, memmodel.py, exc.py. Exclusive stores accept either architecturally permitted "
@@ -195,8 +195,8 @@ CHECKS = {
             "thorough) and of one instance of every encoding row, stepped on the real emulator and compared with the model",
             "(a) every branch row: B T1 all 2^8 offsets x 14 conditions x pass/fail, B T2 all 2^11, CBZ/CBNZ all 2^6 x zero/"
             "non-zero, walking-bit and sign x size alphabets for the 20/24-bit offsets (thorough: ALL 2^20 / 2^24 encodings), "
-            "BX/BLX register targets with low bits 00/01/11, TBB/TBH entries; x instruction addresses {0, 2/4, mid, the last "
-            "slots below 2^32} x arch versions 4..7 x mode: target, LR, T bit, alignment and the frame condition. (b) one "
+            "BX/BLX register targets with low bits 00/01/11, TBB/TBH entries; x instruction addresses {0, 2/4, mid, 0xFFFFFFC0 (short forward "
+            "offsets cross 2^32), the last slots below 2^32} x arch versions 4..7 x mode: target, LR, T bit, alignment and the frame condition. (b) one "
             "predictable non-PC-writing instance of every row of the dp/media/ldst/block/branch tables (507 rows) at every "
             "address: PC advances by exactly 2/4 modulo 2^32; 78 PC-as-source instances observe own address + 8 / + 4. "
             "(c) ALU and load writes to the PC under versions 4..7.",
@@ -220,7 +220,7 @@ CHECKS = {
             "section, supersection, reserved} x second-level {fault, large, small} x AP[2:0] x domain x DACR field x XN/nG/S/"
             "TEX/C/B x SCTLR.{M,AFE,HA,EE,TRE} x FCSE PID x PD0/PD1 x VA at start / end / interior / unmapped x read/write x "
             "privileged/unprivileged, and for the long-descriptor format (EAE=1) T0SZ/T1SZ, start level 1/2, table / block / "
-            "page, APTable/NSTable, AF, AP; physical address, NS, memory type, fault kind + level + domain in DFSR, DFAR and "
+            "page, APTable/NSTable, AF, AP, AttrIndx 0..7 over MAIR0/MAIR1, SH; physical address, NS, memory type, fault kind + level + domain in DFSR, DFAR and "
             "the frame condition are compared, a subset through LDR/STR/LDRT/STRT with the complete Data Abort entry. Paths "
             "ending in a documented mock hook must end in NotImplementedError at exactly that hook.",
             "Trusted: armmc/ref/vmsa.py. Not covered: stage 2 / Hyp, instruction-side XN, long-descriptor DFSR encoding "
